@@ -22,7 +22,7 @@ from .core import Rng, Stats
 
 _CHILD = {}
 # per-run budgets of the schedule dimension (set by run() from the tier)
-_SCHED = {"threads_s": 10.0, "preempt_cases": 36, "per_kind_max": 4, "per_kind": {}}
+_SCHED = {"threads_s": 10.0, "preempt_cases": 40, "per_kind_max": 6, "per_kind": {}}
 
 
 def run_in_dash_o_child(pid, case):
@@ -324,7 +324,7 @@ def run(pid, tier, seed, args, t0):
     prop = load_prop(pid)
     core.repo_on_path()
     stats = Stats()
-    _SCHED.update({"threads_s": 10.0, "preempt_cases": 36, "per_kind_max": 4, "per_kind": {}} if tier == "quick"
+    _SCHED.update({"threads_s": 10.0, "preempt_cases": 40, "per_kind_max": 6, "per_kind": {}} if tier == "quick"
                   else {"threads_s": 120.0, "preempt_cases": 600, "per_kind_max": 60, "per_kind": {}})
     known = core.load_known()
     broken = []          # broken obligations / correspondences (strings)
